@@ -104,6 +104,47 @@ def op_parse(t):
 
 
 @guarded
+def op_mk(t):
+    from metomi.isodatetime.data import TimePoint
+    _md(t)
+    names = ["year", "month_of_year", "day_of_month", "day_of_year", "week_of_year", "day_of_week"]
+    kw = {}
+    for nm in names:
+        v = rd_opt(t, lambda x: x.z())
+        if v is not None:
+            kw[nm] = v
+    for nm in ["hour_of_day", "minute_of_hour", "second_of_minute"]:
+        v = rd_opt(t, lambda x: impl.num(x.q()))
+        if v is not None:
+            kw[nm] = v
+    for nm in ["time_zone_hour", "time_zone_minute"]:
+        v = rd_opt(t, lambda x: x.z())
+        if v is not None:
+            kw[nm] = v
+    return sh_ptp(TimePoint(**kw))
+
+
+def op_anyparse(t):
+    """Which parser, text -> 'OK <valid?>' | 'ERR' | 'EXC type' (never raises)."""
+    from metomi.isodatetime.parsers import DurationParser, TimeRecurrenceParser
+    which = t.next()
+    kw, local = rd_cfg(t)
+    text = dec(t.next())
+    _ = local
+    try:
+        if which == "tp":
+            obj = get_parser(kw).parse(text)
+            return "OK " + sh_ptp(obj)
+        if which == "dur":
+            obj = DurationParser().parse(text)
+            return "OK " + impl.sh_dur(obj)
+        obj = TimeRecurrenceParser(get_parser(kw)).parse(text)
+        return "OK " + impl.sh_rec(obj)
+    except ValueError:
+        return "ERR"
+
+
+@guarded
 def op_pstr(t):
     _md(t)
     kw, local = rd_cfg(t)
@@ -206,6 +247,6 @@ def op_strptime(t):
     return sh_ptp(with_fake_time(secs, secs, 0, 0, lambda: get_parser(kw).strptime(text, fmt)))
 
 
-for name, fn in [("parse", op_parse), ("pstr", op_pstr), ("tpstr", op_tpstr), ("tpdump", op_tpdump),
+for name, fn in [("parse", op_parse), ("mk", op_mk), ("anyparse", op_anyparse), ("pstr", op_pstr), ("tpstr", op_tpstr), ("tpdump", op_tpdump),
                  ("roundtrip", op_roundtrip), ("dumpparse", op_dumpparse), ("strftime", op_strftime), ("strfp", op_strfp), ("strptime", op_strptime)]:
     impl.register(name, fn)
